@@ -218,13 +218,19 @@ pub fn run<T: Elt>(kind: &str, a: &mut Args, out: &mut Out) {
                     "muls" => { let x = a.s::<T>(); caught(out, |_| { t *= x; }); }
                     "divs" => { let x = a.s::<T>(); caught(out, |_| { t /= x; }); }
                     "resize" => { let n = a.usize(); caught(out, |_| { t.resize(n); }); }
-                    _ => {
-                        // value-returning forms: computed from a clone of the current state, which then replaces it
+                    // value-returning forms with a borrowed receiver (&self): applied to the current state itself, which must come out
+                    // unchanged (receiver snapshot); the result then replaces it
+                    "tr" | "clone" => {
                         let snap = toks(&t);
+                        let r = if op == "tr" { caught(out, |_| t.transpose()) } else { caught(out, |_| t.clone()) };
+                        unchanged(&t, &snap, if op == "tr" { "transpose(&self)" } else { "clone(&self)" });
+                        if let Some(r) = r { t = r; }
+                    }
+                    _ => {
+                        // value-returning forms that consume their receiver (self by value): computed from a clone of the current
+                        // state, which then replaces it (nothing of the receiver is left to observe)
                         let cur = t.clone();
                         let r = match op {
-                            "tr" => caught(out, |_| cur.transpose()),
-                            "clone" => caught(out, |_| cur.clone()),
                             "neg" => caught(out, |_| -cur),
                             "scale" => { let x = a.s::<T>(); caught(out, |_| cur * x) }
                             "div" => { let x = a.s::<T>(); caught(out, |_| cur / x) }
@@ -244,7 +250,6 @@ pub fn run<T: Elt>(kind: &str, a: &mut Args, out: &mut Out) {
                                 let t2 = Tridiagonal::with_vecs(s, m, p); caught(out, |_| cur - t2) }
                             _ => panic!("harness: unknown tri.hist op {}", op),
                         };
-                        unchanged(&t, &snap, "an operator applied to a clone");
                         if let Some(r) = r { t = r; }
                     }
                 }
